@@ -745,30 +745,33 @@ class TypedTree(Tree):
         # TypedTrees can assume reasaonable defaults for key_map and value_map
         # (key_map is evaluated in base class from TypedTree.DEFAULT_KEY_MAP)
 
-        # print("value_map    ", value_map)
-        if value_map is True or isinstance(value_map, dict):
-            if value_map is True:
-                value_map = self.DEFAULT_VALUE_MAP.copy()
+        # The census of the node kinds below reads the tree, so it must happen
+        # inside the lock as well (which is re-entrant: Tree.save() acquires it again)
+        with self:
+            # print("value_map    ", value_map)
+            if value_map is True or isinstance(value_map, dict):
+                if value_map is True:
+                    value_map = self.DEFAULT_VALUE_MAP.copy()
+                else:
+                    value_map = value_map.copy()  # don't modify the caller's dict
+
+                if "kind" not in value_map:
+                    counter = Counter()
+                    for n in self:
+                        counter[n.kind] += 1
+                    value_map.update({"kind": list(counter.keys())})
+                    # print("value_map -> ", value_map)
             else:
-                value_map = value_map.copy()  # don't modify the caller's dict
+                assert value_map is False, value_map
 
-            if "kind" not in value_map:
-                counter = Counter()
-                for n in self:
-                    counter[n.kind] += 1
-                value_map.update({"kind": list(counter.keys())})
-                # print("value_map -> ", value_map)
-        else:
-            assert value_map is False, value_map
-
-        return super().save(
-            target,
-            compression=compression,
-            mapper=mapper,
-            meta=meta,
-            key_map=key_map,
-            value_map=value_map,
-        )
+            return super().save(
+                target,
+                compression=compression,
+                mapper=mapper,
+                meta=meta,
+                key_map=key_map,
+                value_map=value_map,
+            )
 
     @classmethod
     def _from_list(
